@@ -503,7 +503,8 @@ impl Solo {
                         };
                         let mut p = Pkt::new(v, k).with_id(id);
                         if v == 5 && *rc != 0 && *how == 0 {
-                            p.rc = Some(*rc);
+                            // PUBCOMP knows only 0x92 besides success
+                            p.rc = Some(if k == PUBCOMP { 0x92 } else { *rc });
                             self.fault("error_reason_code_ack");
                         }
                         p
@@ -717,6 +718,10 @@ impl Solo {
                 };
             }
             Op::Close { partial } => {
+                // reporting a close for a transport that never existed is outside the usage contract
+                if self.w.m.st == St::Disc && !self.w.want_close && !self.cfg.lenient {
+                    return;
+                }
                 if *partial > 0 && self.w.m.st != St::Disc && !self.w.want_close {
                     // a frame of the peer is cut off by the loss
                     let mut p = Pkt::new(v, PUBLISH);
